@@ -15,6 +15,7 @@
 package ggql
 
 import (
+	"math"
 	"strconv"
 )
 
@@ -41,9 +42,15 @@ func (*floatScalar) CoerceIn(v interface{}) (interface{}, error) {
 	case nil:
 		// remains nil
 	case float64:
-		v = float32(tv)
+		f := float32(tv)
+		if math.IsNaN(tv) || math.IsInf(float64(f), 0) {
+			return nil, newCoerceErr(v, "Float")
+		}
+		v = f
 	case float32:
-		// ok as is
+		if math.IsNaN(float64(tv)) || math.IsInf(float64(tv), 0) {
+			return nil, newCoerceErr(v, "Float")
+		}
 	case int32:
 		v = float32(tv)
 	case int64:
